@@ -137,6 +137,7 @@ def make_runner(cfg):
             observe()
             ncb = [c[0] for c in cbs]
             incache = job._job in cache
+            kills = [k for k in world.kills if k[1] == 100]
         v = None
         sig = None
         if errs:
@@ -151,6 +152,12 @@ def make_runner(cfg):
             v = ('%s || %s: result callbacks fired %d times: %r' % (
                 pair[0], pair[1], len(ncb), ncb))
             sig = 'F20:set-not-idempotent'
+        elif seen and seen[-1][0] is True and kills and 'hard' in pair:
+            v = ('%s || %s: the job resolved with its result %r, yet the '
+                 'time-limit scanner went on to signal its worker %r (which '
+                 'may already run the next job)' % (pair[0], pair[1],
+                                                    seen[-1], kills))
+            sig = 'F28:scanner-kills-after-losing-the-race'
         elif not seen:
             v = 'job left unresolved'
         elif incache and job._accepted:
